@@ -32,6 +32,8 @@ def oracle(case, out):
     if out[:1] == [1] and len(out) == 3:
         where = {0: "spawn", 1: "stdout read", 2: "stderr read", 3: "stdin write", 4: "wait"}.get(out[1], "?")
         return "%s failed with io error kind %d" % (where, out[2])
+    if len(case) == 5:
+        return huge_oracle(case, out)
     if len(case) != 12 or len(out) != 12 or out[0] != 0:
         return "malformed result %r" % (out,)
     drv, n_out, n_err, n_in, use_stdin, rchunk, wchunk, ek, ea, order, reuse, delay = case
@@ -61,6 +63,38 @@ def oracle(case, out):
     return None
 
 
+def huge_oracle(case, out):
+    """one write / read call with a buffer of m * 2^32 + k bytes"""
+    drv, d, m, k, n_out = case
+    size = (m << 32) + k
+    if len(out) != 6 or out[0] != 0:
+        return "malformed result %r" % (out,)
+    _, n, bsum, ok, eof, code = out
+    if code != 0:
+        return "exit status code %d, the child exited with 0" % code
+    if d == 0:
+        if n == 0:
+            return ("ChildStdin::write of a %d-byte buffer returned Ok(0) (WriteZero) although the pipe was empty: "
+                    "the request length was computed as 0" % size)
+        if n > size or n != min(size, CAP):
+            return ("ChildStdin::write of a %d-byte buffer into an empty pipe moved %d bytes, the pipe takes %d"
+                    % (size, n, min(size, CAP)))
+        if ok != 1:
+            return "the buffer came back with another length"
+        return None
+    if n == 0:
+        return ("ChildStdout::read with a %d-byte capacity reported end of file although %d bytes were in the pipe"
+                % (size, n_out))
+    if n != n_out:
+        return ("ChildStdout::read with a %d-byte capacity returned %d of the %d bytes in the pipe: the request "
+                "length was not min(capacity, 2^32 - 1)" % (size, n, n_out))
+    if ok != 1 or bsum != pat_sum(LINE_OUT, n_out) % (1 << 32):
+        return "the bytes read differ from what the child wrote / buffer length rule broken"
+    if eof != 1:
+        return "no end of file after the child's whole output was read"
+    return None
+
+
 class C20(diffcheck.DiffProp):
     pid = "C20"
     manifest = dict(
@@ -79,7 +113,9 @@ class C20(diffcheck.DiffProp):
         note="PARTIAL. PROVED (Coq, no axioms): FIFO completeness/in-order delivery of the pipe reference for all schedules, "
              "capacities >= 0 and chunkings, independence of stdin/stdout/stderr, echo equality, progress and the "
              "blocked-producer characterisation, liveness of a fair schedule; the wait LTS (both the pidfd and the blocking "
-             "path of linux.rs/unix.rs) delivers exactly once, never before EnvExit, the same status, and is live. OBSERVED "
+             "path of linux.rs/unix.rs) delivers exactly once, never before EnvExit, the same status, and is live; the request "
+             "length of one sequential Read/Write (min(n, 2^32-1) on io_uring, n on polling) is > 0 for n > 0 and <= n, so a "
+             "buffer of 2^32 bytes or more still moves >= 1 byte (no WriteZero, no premature end of file). OBSERVED "
              "ONLY (differential run, sampled scenarios): that the kernel's pipes, fork/exec and waitpid behave like the "
              "reference; that compio's sequential Read/Write ops, map_advanced, the drop of ChildStdin, spawn_blocking and "
              "wait_with_output drive them as the reference's steps, on io_uring and on polling. The pidfd path of linux.rs "
@@ -98,7 +134,8 @@ class C20(diffcheck.DiffProp):
     counts = {"quick": 40, "thorough": 240}
     shards = 4
     thorough_release = False
-    rule = ("cases = corpus (witnesses: single large stdin write through cat on polling, wait-before-drain above the pipe "
+    rule = ("cases = corpus (witnesses: one write / read call with buffers of 2^32, 2 * 2^32, 2^32 + k bytes on both drivers, "
+            "single large stdin write through cat on polling, wait-before-drain above the pipe "
             "capacity, every signal, exit codes 0/255) + random scenarios, each on both drivers: payloads 0..4 MiB below/at/"
             "above the 64 KiB pipe capacity on stdin/stdout/stderr, read/write chunk sizes 1 byte..whole payload, orders "
             "wait-first / drain-first / concurrent / wait_with_output / wait and wait_with_output with the ChildStdin left "
